@@ -92,6 +92,35 @@ def zigzagEnc (v : BitVec 64) : BitVec 64 := (v <<< ZIGZAG_ENC_SHL) ^^^ (v.sshif
 /-- the zig-zag line of `get_zigzag_vlq_int`: `(u >> 1) as i64 ^ -((u & 1) as i64)` -/
 def zigzagDec (u : BitVec 64) : BitVec 64 := (u >>> ZIGZAG_DEC_SHR) ^^^ (-(u &&& 1))
 
+/-! ### `BitWriter` / `BitReader` call sequences (every public entry point, in any order) -/
+
+inductive BwOp where
+  | value (w v : Nat)          -- put_value
+  | aligned (n v : Nat)        -- put_aligned::<u64>(v, n)
+  | skip (n : Nat)             -- skip(n)
+  | nextPtr (n : Nat)          -- get_next_byte_ptr(n), then the slice is filled with 1, 2, …
+  | writeAt (off v : Nat)      -- write_at
+  | alignedAt (off v : Nat)    -- put_aligned_offset::<u8>(v, 1, off)
+  | vlq (v : Nat)              -- put_vlq_int
+  | zigzag (v : Int)           -- put_zigzag_vlq_int
+  | flush
+
+def BitWriter.step (s : BitWriter) : BwOp → BitWriter
+  | .value w v => s.putValue v w
+  | .aligned n v => s.putAligned v 8 n
+  | .skip n => (s.skip n).1
+  | .nextPtr n =>
+    let (s', off) := s.skip n
+    (List.range n).foldl (fun b i => b.writeAt (off + i) (i + 1)) s'
+  | .writeAt off v => s.writeAt off v
+  | .alignedAt off v => s.writeAt off v
+  | .vlq v => s.putVlq v
+  | .zigzag v => s.putVlq (zigzagEnc (BitVec.ofInt 64 v)).toNat
+  | .flush => s.flush
+
+/-- `bytes_written()` -/
+def BitWriter.bytesWritten (s : BitWriter) : Nat := s.buf.length + ceilDiv s.off 8
+
 /-! ### `RleEncoder` (rle.rs), as written -/
 
 structure RleEnc where
@@ -363,6 +392,51 @@ def rleDecode (w : Nat) (bytes : List Nat) (n : Nat) : DecRes :=
   | .stop rest => getBatchLoop w (n + bits.length + 2) rest 0 0 0 n
   | .rle c v rest => getBatchLoop w (n + bits.length + 2) rest c 0 v n
   | .packed c rest => getBatchLoop w (n + bits.length + 2) rest 0 c 0 n
+
+/-! ### `BitReader` call sequences -/
+
+inductive BrOp where
+  | value (w : Nat)            -- get_value::<u64>(w)
+  | batch (n w : Nat)          -- get_batch::<u64>(&mut [_; n], w)
+  | skip (n w : Nat)           -- skip(n, w)
+  | aligned (n : Nat)          -- get_aligned::<u64>(n)
+  | alignedBytes (n : Nat)     -- get_aligned_bytes(n)
+  | vlq
+  | zigzag
+  | offset                     -- get_byte_offset
+
+/-- one `BitReader` call on the remaining bits; `total` = input length in bits.  Returns the
+printed observation and the new state; `none` = the call panics. -/
+def brStep (total : Nat) (bits : List Bool) : BrOp → Option (String × List Bool)
+  | .value w =>
+    if bits.length < w then some ("none", bits)
+    else some (toString (ofBits (bits.take w)), bits.drop w)
+  | .batch n w =>
+    let k := if bits.length < w * n then bits.length / w else n
+    some ("[" ++ ",".intercalate ((unpack w k bits).map toString) ++ "]", bits.drop (k * w))
+  | .skip n w =>
+    let k := if bits.length < w * n then bits.length / w else n
+    some (toString k, bits.drop (k * w))
+  | .aligned n =>
+    match getAligned n bits with
+    | some (v, rest) => some (toString v, rest)
+    | none => some ("none", alignBits bits)
+  | .alignedBytes n =>
+    let b := alignBits bits
+    let k := min n (b.length / 8)
+    some ("x" ++ String.ofList (((List.range k).map (fun i => fieldAt b 8 i)).flatMap (fun v =>
+      [Nat.digitChar (v / 16), Nat.digitChar (v % 16)])), b.drop (8 * k))
+  | .vlq =>
+    match getVlq bits with
+    | .ok v rest => some (toString v, rest)
+    | .eof => some ("none", alignBits bits)
+    | .tooLong => none
+  | .zigzag =>
+    match getVlq bits with
+    | .ok v rest => some (toString (zigzagDec (BitVec.ofNat 64 v)).toInt, rest)
+    | .eof => some ("none", alignBits bits)
+    | .tooLong => none
+  | .offset => some (toString ((total - bits.length + 7) / 8), bits)
 
 /-! ### DELTA_BINARY_PACKED (`DeltaBitPackEncoder` / `DeltaBitPackDecoder`)
 
